@@ -910,6 +910,18 @@ impl CatalogPersistence {
             catalog_offset
         );
 
+        // the length comes from the file: it must not be believed beyond what the file holds
+        let file_len = file
+            .metadata()
+            .wrap_err("failed to stat catalog file")?
+            .len();
+        ensure!(
+            catalog_length as u64 <= file_len.saturating_sub(HEADER_SIZE as u64),
+            "corrupt catalog file: catalog length {} exceeds the file size {}",
+            catalog_length,
+            file_len
+        );
+
         let mut catalog_bytes = vec![0u8; catalog_length];
         file.read_exact(&mut catalog_bytes)
             .wrap_err("failed to read catalog data")?;
